@@ -10,11 +10,11 @@ RH = 'crates/anemo/src/network/request_handler.rs'
 CMF = 'crates/anemo/src/network/connection_manager.rs'
 
 
-def run_handler_start(unroll=1, extra=()):
+def run_handler_start(unroll=1, extra=(), depth=1):
     def m_rm(ex, p, call, k):
         p.events.append(Event('remove', call.short.split('::')[-1], call.args[1:], None, call.span))
         k(p, UNIT)
-    ex = e2.executor('anemo', list(extra) + CONNECTION_MODELS + [(r'ActivePeers::(remove|remove_with_stable_id)$', m_rm)], max_depth=1, unroll=unroll)
+    ex = e2.executor('anemo', list(extra) + CONNECTION_MODELS + [(r'ActivePeers::(remove|remove_with_stable_id)$', m_rm)], max_depth=depth, unroll=unroll)
     parent = find_method(ex.prog, 'InboundRequestHandler', 'start')
     fn = find_closure(ex.prog, parent, [0])
     p, args = coroutine_start(ex, fn)
@@ -24,7 +24,7 @@ def run_handler_start(unroll=1, extra=()):
 
 def ob_handler_tail(report, prop):
     def body(ob):
-        ex, fn, res = run_handler_start()
+        ex, fn, res = run_handler_start(depth=3)
         hf = struct_fields(RH, 'InboundRequestHandler')
         own = f'gen.0.{hf.index("connection")}'
         n_tail = 0
@@ -60,7 +60,7 @@ def ob_handler_tail(report, prop):
         ob.done([ex], 'held', '', {'paths': len(res), 'tail_paths': n_tail}, paths=len(res))
     return guarded(report, 'handler_exit_removes_own_connection_by_stable_id', 'InboundRequestHandler::start: after the accept loop ends the only removal is '
                    'remove_with_stable_id(connection.peer_id(), connection.stable_id(), reason) of its own connection, on every path, for every close reason',
-                   ['InboundRequestHandler::start::{async body}', 'DisconnectReason::from_quinn_error'], {'loop_unroll': 1, 'inline_depth': 1, 'select!': 'outcome symbolic'}, body)
+                   ['InboundRequestHandler::start::{async body}', 'DisconnectReason::from_quinn_error'], {'loop_unroll': 1, 'inline_depth': 3, 'select!': 'outcome symbolic'}, body)
 
 
 def ob_add_peer(report, prop):
